@@ -52,6 +52,19 @@ def drain (fails : Nat → Bool) : Nat → St → St
 def close (fails : Nat → Bool) (s : St) : Option St :=
   if canPut s then some (drain fails s.queue.length s) else none
 
+/-- exit of `handle_events` with a LIMITED wait for the handler thread (`thread.join(timeout)`): the handler thread gets at
+    most `k` further iterations before the caller stops waiting (`limit = some k`); `none` = `thread.join()`, the wait of the
+    real code (extracted on every run: `Generated/C11Tables.emJoinLimit`).  How many iterations fit into a wall-clock
+    timeout depends on how long the handlers take: `k` ranges over everything, 0 = a handler that is stuck / slow. -/
+def closeWithin (fails : Nat → Bool) (limit : Option Nat) (s : St) : Option St :=
+  if canPut s then
+    some (drain fails (match limit with | none => s.queue.length | some k => min k s.queue.length) s)
+  else none
+
+/-- the handler thread has ended (`not thread.is_alive()`): its loop stopped on a failure, or it consumed everything up to
+    the sentinel -/
+def threadEnded (s : St) : Bool := !s.alive || s.queue.isEmpty
+
 inductive Op
   | fire (e : Nat)
   | handle            -- the handler thread gets to run one iteration (any interleaving with the producers)
